@@ -7,7 +7,7 @@ oracle: Python parser of everything written, checking the three clauses of the p
 import json
 from pathlib import Path
 from vf import core, apci, runner
-from props import c05
+from props import c05, clientlib
 
 LEVEL = "proof"
 
@@ -263,6 +263,11 @@ def run(ck):
                 i = next((j for j, (a, b) in enumerate(zip(got, expect)) if a != b), min(len(got), len(expect)))
                 ck.fail("correspondence", "diff:frame:" + sid.split(".")[0], "octets written differ from the model's encoding of the same event list at frame %d: C=%s model=%s" % (
                     i, expect[i:i + 1], got[i:i + 1]), {"script": lines, "model_script": ml[:i + 3]})
+    # client: besides the octet observer above, the whole connection loop model (Cs104/Client.v) must reproduce the client's trace
+    try:
+        ndiff += clientlib.correspond(ck, clientlib.model(), cscripts, rc, "frames")
+    except Exception as e:
+        ck.fail("correspondence", "model-build", "extracted client model does not build: " + str(e)[:300], {"theorem": "extraction"})
     ck.count("connections_replayed_in_model", len(mscripts))
     ck.extra["disagreements"] = ndiff
     ck.extra["exhaustive"] = False
